@@ -178,7 +178,7 @@ func withProbe(src string, before int) string {
 
 // ---- running one program
 
-const fuelPerHistory = 200000
+const fuelPerHistory = 20000
 
 func runProgram(fr *Front, g *Gen, idx int, origin, src string, corpusHists []string, nHist int) *ProgResult {
 	res := &ProgResult{Idx: idx, Origin: origin, Src: src, Stats: map[string]int{}}
@@ -343,6 +343,11 @@ func main() {
 	if r.Thorough {
 		nProg, nMut, nHist, batchSize = 2600, 1200, 12, 12
 	}
+	if v := os.Getenv("C01_NPROG"); v != "" { // debugging aid only
+		fmt.Sscan(v, &nProg)
+		nMut = nProg / 3
+	}
+	debug := os.Getenv("C01_DEBUG") != ""
 
 	// the regenerated std snapshot (base module) + wuffs-c from the working tree
 	var sb *hlib.StdBuild
@@ -424,7 +429,13 @@ func main() {
 					}
 					src, _ = p.Render(-1)
 				}
+				if debug {
+					fmt.Fprintf(os.Stderr, "program #%d generated (%d bytes)\n", j.idx, len(src))
+				}
 				results[j.idx] = runProgram(fr, g, j.idx, origin, src, j.hists, nHist)
+				if debug {
+					fmt.Fprintf(os.Stderr, "program #%d done\n", j.idx)
+				}
 				genStats[j.idx] = g.stats
 			}
 		}()
@@ -473,7 +484,11 @@ func main() {
 				defer func() { <-sem }()
 				var cps []*CProg
 				for _, res := range batch {
-					cps = append(cps, &CProg{Pkg: fmt.Sprintf("p%d", res.Idx), Src: res.Src, Fields: res.Fields, Hists: res.Hists})
+					skip := make([]bool, len(res.Hists))
+					for hi := range res.Hists {
+						skip[hi] = res.Dropped[hi] != ""
+					}
+					cps = append(cps, &CProg{Pkg: fmt.Sprintf("p%d", res.Idx), Src: res.Src, Fields: res.Fields, Hists: res.Hists, Skip: skip})
 				}
 				exe, idx, bad, err := buildBatch(sb.Snapshot, filepath.Join(sb.BinDir, "wuffs-c"), dir, fmt.Sprintf("b%d", bi), cps)
 				for i, res := range batch {
